@@ -12,6 +12,8 @@ from ..impl import build, mk_layer_rule, mk_layered_architecture, plan_graph_sha
 from ..refmodel import Unparsable, layer_expectation, layer_of, parse_layer_message
 from ..spaces import NAMINGS, SHAPES, rename, trees, unrelated
 
+from pytestarch import LayerRule  # noqa: E402
+
 ID = "C05"
 RULE = (
     "every architecture of the stated bounds (identity and adversarial naming) x every layered "
@@ -122,12 +124,12 @@ def decoys(ns, I, layers, spec):
     return out
 
 
-def judge(ns, I, layers, style, spec, ev, seed, res, la=None, decoy=None):
+def judge(ns, I, layers, style, spec, ev, seed, res, la=None, decoy=None, base=None):
     """la: LayeredArchitecture object shared with other rules (None = a fresh one);
     decoy: (ns, I) of another architecture the same rule object is applied to first."""
     if la is None:
         la = mk_layered_architecture(layer_defs(layers, style), seed)
-    rule = mk_layer_rule(la, spec, seed)
+    rule = mk_layer_rule(la, spec, seed, base=base)
     if decoy is not None:
         run_rule(rule, build(decoy[0], decoy[1], seed))
         if res is not None:
@@ -198,6 +200,9 @@ def run_shard(shard, tier, seed):
                 # one LayeredArchitecture object per definition, shared by all rules (as in a test module)
                 la = mk_layered_architecture(layer_defs(layers, style), seed)
                 la0, dirty = generic_canon(la), False
+                # for the name-defined style all rules are additionally started from one shared
+                # LayerRule().based_on(architecture) object, configured and evaluated one after the other
+                shared_base = LayerRule().based_on(la) if style == "names" else None
                 for spec in specs:
                     res.transitions += 1
                     res.evaluations += 1
@@ -206,6 +211,13 @@ def run_shard(shard, tier, seed):
                         # state (one follow-up rule), now start again from a fresh definition
                         la, dirty = mk_layered_architecture(layer_defs(layers, style), seed), False
                     v = judge(ns, I, layers, style, spec, ev, seed, res, la=la)
+                    if v is None and shared_base is not None:
+                        if dirty:
+                            shared_base = LayerRule().based_on(la)
+                        v = judge(ns, I, layers, style, spec, ev, seed, res, la=la, base=shared_base)
+                        res.stats["shared-layer-rule-base"] += 1
+                        if v:
+                            v = (v[0] + "-with-shared-rule-base",) + tuple(v[1:])
                     if generic_canon(la) != la0:
                         dirty = True
                         res.stats["shared-definition-changed-by-a-rule"] += 1
